@@ -23,6 +23,7 @@ import Driver.MfBt4
 import Driver.EncFast
 import Driver.Writers
 import Driver.MtTrace
+import Driver.Lzma2W
 /-! Request handlers: each maps a parsed request to the canonical answer line. -/
 namespace Driver
 open LzmaVerif
@@ -432,6 +433,7 @@ def handle (cmd : String) (a : Args) : String :=
   | "twin.extend" | "twin.norm" | "twin.reject" | "twin.direct" => handleTwin cmd a
   | "encfast.parse" | "lzma.parse" => handleEncFast cmd a
   | "lzipw.fast" | "lzmaw.fast" => handleWriters cmd a
+  | "lzma2w.fast" => handleLzma2W a
   | "mf.trace" => if a.get? "kind" == some "bt4" then handleMfBt4 a else handleMfTraceHc4 a
   | "lzdec.run" => handleLzDec a
   | "encwin.trace" => handleEncWin a
